@@ -6,7 +6,7 @@ use crate::util::*;
 use aws_smt_strings::character_sets::{CharSet, ClassId};
 use aws_smt_strings::errors::Error;
 use aws_smt_strings::loop_ranges::LoopRange;
-use aws_smt_strings::regular_expressions::{ReManager, RegLan, RE};
+use aws_smt_strings::regular_expressions::{leaves, sub_terms, ReManager, RegLan, RE};
 use aws_smt_strings::smt_strings::SmtString;
 use std::panic::{catch_unwind, AssertUnwindSafe};
 
@@ -50,6 +50,21 @@ fn all_words(alpha: &[u32], k: usize) -> Vec<Vec<u32>> {
         last = next;
     }
     res
+}
+
+/// ids yielded by an iterator of terms, in order: `<count> <id>,<id>,...`
+fn ids_show(it: impl Iterator<Item = RegLan>) -> String {
+    let ids: Vec<String> = it.map(|r| r.verif_id().to_string()).collect();
+    format!("{} {}", ids.len(), ids.join(","))
+}
+/// RE::is_empty, num_deriv_classes, valid_class_id on the listed class ids
+fn reinfo(a: RegLan, c: &mut Cur) -> String {
+    let k = c.us();
+    let mut v = String::new();
+    for _ in 0..k {
+        v.push_str(b(a.valid_class_id(cid(c.next()))));
+    }
+    format!("empty={} n={} valid={}", b(a.is_empty()), a.num_deriv_classes(), v)
 }
 
 struct St {
@@ -243,6 +258,12 @@ fn stmt(st: &mut St, t: &[&str]) -> String {
         }
         // ---- observations
         "dump" => term(st, &mut c).verif_dump(),
+        "subterms" => ids_show(sub_terms(term(st, &mut c))),
+        "leaves" => ids_show(leaves(term(st, &mut c))),
+        "reinfo" => {
+            let a = term(st, &mut c);
+            reinfo(a, &mut c)
+        }
         "nullable" => b(term(st, &mut c).nullable).to_string(),
         "mem" => {
             let a = term(st, &mut c);
@@ -529,6 +550,12 @@ fn wstmt(v: &mut Vec<RegLan>, t: &[&str]) -> String {
             push(v, w::re_loop(a, i, j))
         }
         "dump" => v[c.us()].verif_dump(),
+        "subterms" => ids_show(sub_terms(v[c.us()])),
+        "leaves" => ids_show(leaves(v[c.us()])),
+        "reinfo" => {
+            let a = v[c.us()];
+            reinfo(a, &mut c)
+        }
         "nullable" => b(v[c.us()].nullable).to_string(),
         "mem" => {
             let a = v[c.us()];
